@@ -3,7 +3,7 @@ import re
 
 from lib import coq_term_str as S, coq_list as L, coq_nat as N
 
-THEOREMS = ['C19_model_conditions_regenerated', 'C19_relex_safe_bc', 'C19_lexed_tokens_lexable', 'C19_relex_safe_implies_bc', 'C19_char_roundtrip',
+THEOREMS = ['C19_F38_refuted', 'C19_model_conditions_regenerated', 'C19_relex_safe_bc', 'C19_lexed_tokens_lexable', 'C19_relex_safe_implies_bc', 'C19_char_roundtrip',
             'C19_m_cp_string', 'C19_char_roundtrip_example', 'C19_earley_matches_supported', 'C19_M_earley_sound', 'C19_M_earley_ok', 'C19_M_earley_complete',
             'C19_recons_token_roundtrip_earley', 'C19_resolve_selector_exists', 'C19_join_spec', 'C19_relex',
             'C19_char_roundtrip_partial', 'C19_write_tokens_yield', 'C19_recons_token_sound', 'C19_recons_token_roundtrip_partial', 'C19_recons_token_roundtrip',
